@@ -637,8 +637,8 @@ class C14(PropertyCheck):
                   "only continuous function with that right derivative and U(0) = 1, and the only continuous function with U(0) = 1 that "
                   "satisfies the equation at the times that are not merged grid points (Gronwall): the slice product is the time-ordered "
                   "exponential.  A reloaded channel resamples to itself; labels survive save_coeff/read_coeff when no label contains "
-                  "';' or a newline and a header line is written (header_written: always for the repaired call of fix proposal C14-5; "
-                  "for np.savetxt(header=...) as found not for a single pulse labelled '' saved without time column - "
+                  "';' or a newline and a header line is written (header_written: always for the call as it is in /repo - fix C14-5, applied; "
+                  "for np.savetxt(header=...) as it was before the fix not for a single pulse labelled '' saved without time column - "
                   "C14_counterexample_empty_header, confirmed on the code: KeyError); array shapes survive for every number of pulses and columns (save_read_shape_repaired: "
                   "np.loadtxt(ndmin=2), fix C14-3, applied; save_read_shape_counterexample describes the call before the fix).  "
                   "PARTIAL: that Qobj.expm computes the matrix exponential, run_state (sesolve/mesolve) and the text round trip "
@@ -654,10 +654,10 @@ class C14(PropertyCheck):
     level_note = ("partial: proof for the resampling / merged-grid / label logic and for 'ordered product of slice exponentials = "
                   "time-ordered exponential of the stated piecewise-constant Hamiltonian' (existence, ODE, uniqueness; Mathlib "
                   "NormedSpace.exp); the numerical clause (Qobj.expm, sesolve/mesolve, np.savetxt '%1.16f' precision, cubic splines) is "
-                  "trusted runtime numerics compared to 1e-9 (analytic) / 2e-6 (solver) on sampled processors.  The fixes C14-1..C14-4 "
+                  "trusted runtime numerics compared to 1e-9 (analytic) / 2e-6 (solver) on sampled processors.  The fixes C14-1..C14-5 "
                   "are applied in /repo (run_state options, last element of a full-length step coefficient, ndmin=2, cubic boundary); "
                   "the check reads the variant of the tree with ast and is green on both shapes; C14-5 (header line of save_coeff for an "
-                  "empty header string) is proposed, variant flag hdr read from the tree.  Uniqueness is proved both in the class of "
+                  "empty header string) is applied as well, variant flag hdr read from the tree.  Uniqueness is proved both in the class of "
                   "continuous functions with a right derivative at every point of [0, T_end) and in the larger class of continuous "
                   "functions that are differentiable only off the merged grid.  "
                   "Trusted: Lean kernel (propext, Classical.choice, Quot.sound), the harness py/props/c14.py.")
